@@ -3,6 +3,7 @@ Every reachable state of the real HighJumpCompetition within the bounds x every 
 legal or not: U1 refusal type, U2 refusal leaves the full internal snapshot untouched, U3 state order,
 U4/U5 accepted exactly when the rules (reference model, lock-step) allow it."""
 import time
+from vlib import concpass
 from vlib import common, hjmc
 from vlib.common import Report, Violation
 from checks import hjcommon
@@ -39,8 +40,11 @@ def run(tier):
                         'I1-I6 of DESIGN.md 2.1: unknown bibs outside the alphabet; no-height tie may jump off or finish; passes in a jump-off and early '
                         'jump-off bar moves are fringe (universal checks only)',
                         'the action log is write-only for transitions (verified at run time by an instrumented list)']
+    concpass.part(rep, PID, tier)
     return rep.finish()
 
 
 def replay(rec):
+    if concpass.is_conc(rec):
+        return concpass.replay(rec)
     return hjcommon.replay_history(rec, ('C02',))
